@@ -215,6 +215,11 @@ Proof. exact okcH_next_closed. Qed.
    held): chainN asks per step only that the next tree agrees with the previous final tree at the cache file, that the
    clock does not run backwards, prog_paths_wf, and SideH - which still contains faithful_cache of the cache read
    (SimN3.next_faithful_statement: not proved) - the ONE hypothesis about the previous cache left per build.
+   Towards it (SimT1-2.v): faithful_op / faithful_sub_at are invariant under the record relation of the simulation
+   (follows_rel), faithful_cache transfers along a lookup-level link of caches (faithful_cache_transfer,
+   next_faithful_partial); invariance under the read-back normal form norm_op is FALSE as Spec/Faithful.v states
+   faithfulness (recorded return values are compared by Leibniz equality, norm_val sorts dict keys:
+   norm_op_invariance_refuted) - a strictness of the specification, to be restated up to JSON equality.
    old_ok is assumed of no cache (SimR1-2.v, SimS1-2.v: chainS asks SideH only under old_ok of the cache read, which the
    previous build supplies; adopted old outputs are regular files of the starting tree: SimS1.run_adopted). *)
 Theorem C01_mechanism_chain_partial : forall cf nm l b, path_wf cf = true ->
